@@ -170,6 +170,22 @@ class OsTheory:
         M["os.path.basename"] = p_basename
         M["os.path.relpath"] = p_relpath
 
+        def p_split(I, a, k):
+            # os.path.split(p) = (head, tail) with head = dirname(p), tail = basename(p)  (same functions, T-os DN/BN axioms)
+            return (p_dirname(I, a, k), p_basename(I, a, k))
+        M["os.path.split"] = p_split
+
+        def fs_probe(kind):
+            def probe(I, a, k):
+                p = self.sz(I, a[0])
+                self.touch(kind, p, "probe")
+                self.log(kind, path=p)
+                return SBool(I.ctx.fresh_bool(kind))      # a read-only query of the file system: any answer
+            return probe
+        M["os.path.islink"] = fs_probe("islink")
+        M["os.path.isdir"] = fs_probe("isdir")
+        M["os.path.isfile"] = fs_probe("isfile")
+
         # ------------------------------------------------------------------ file system calls
         EX = z3.Function("fs.exists", STR, z3.BoolSort())
 
